@@ -84,6 +84,9 @@ func main() {
 		u, why := cdesc.GenUniverse(r, fmt.Sprintf("r%dx%d", *seed, k))
 		if k%3 == 1 {
 			u, why = cdesc.GenRich(r, fmt.Sprintf("r%dx%d", *seed, k))
+		} else if k%3 == 2 && k%2 == 0 {
+			cdesc.WithBad(r, u)
+			why += "+unsupported"
 		}
 		ms := cdesc.MsgNodes(u)
 		if len(ms) == 0 {
@@ -98,8 +101,8 @@ func main() {
 		encoded := map[int]string{}
 		for _, i := range ms {
 			o := doCall(j5codec.NewCodec(), b, nil, call{1, i})
-			if o.Err != "" || o.Panic != "" {
-				fmt.Fprintf(os.Stderr, "solo encode of node %d fails: %+v\n", i, o)
+			if (o.Err != "" || o.Panic != "") != !u.Good(i) {
+				fmt.Fprintf(os.Stderr, "solo encode of node %d (reflectable: %v): %+v\n", i, u.Good(i), o)
 				os.Exit(3)
 			}
 			encoded[i] = o.Out
